@@ -54,9 +54,12 @@ sensitivity() {
     if [ -n "${VERIF_SENS_ONLY:-}" ] && [[ " $VERIF_SENS_ONLY " != *" $id "* ]]; then continue; fi
     prop=$(python3 -c 'import json,sys; m=json.load(open(sys.argv[1])); print(m.get("check_property", m["property"]))' "$d/meta.json")
     expect=$(python3 -c 'import json,sys; print(json.load(open(sys.argv[1])).get("caught_by_quick", True))' "$d/meta.json")
+    superseded=$(python3 -c 'import json,sys; print(json.load(open(sys.argv[1])).get("superseded_by", ""))' "$d/meta.json")
+    if [ -n "$superseded" ]; then echo "selftest sensitivity: $id ($prop): not applicable to this tree any more - $superseded" | cut -c1-260; continue; fi
+    pf="$d/patch.diff"; [ -f "$d/patch.rebased.diff" ] && pf="$d/patch.rebased.diff"
     scratch="$TMPROOT/repo-$id"
     rsync -a --exclude .git /repo/ "$scratch/" || exit 2
-    if ! (cd "$scratch" && patch -p1 -s < "$d/patch.diff"); then echo "SELFTEST-FAIL sensitivity: $id does not apply"; rc=2; rm -rf "$scratch"; continue; fi
+    if ! (cd "$scratch" && patch -p1 -s < "$pf"); then echo "SELFTEST-FAIL sensitivity: $id does not apply (run tools/rebase_seeded.py)"; rc=2; rm -rf "$scratch"; continue; fi
     mkdir -p "$TMPROOT/root-$id"; cp "$VERIF/known_findings.json" "$TMPROOT/root-$id/"
     out=$(VERIF_REPO="$scratch" VERIF_ROOT="$TMPROOT/root-$id" "$VERIF/check" "$prop" quick 2>&1); st=$?
     rm -rf "$scratch"
